@@ -105,6 +105,7 @@ func props() []prop {
 			Assumptions: with("only the API documented as concurrency-safe is called from foreign goroutines"),
 			Units: []unit{
 				{Check: "hammer", Pkg: "internal/actor", Race: true, Shards: [2]int{4, 8}, Timeout: [2]time.Duration{8 * min, 40 * min}, CrashKey: "c10-crash", HangKind: "c10-hang", OnlyKinds: []string{"c10-", "data-race", "harness-"}},
+{Check: "hammerfast", Pkg: "internal/actor", Shards: [2]int{4, 8}, Timeout: [2]time.Duration{8 * min, 40 * min}, CrashKey: "c10-crash", HangKind: "c10-hang", OnlyKinds: []string{"c10-", "data-race", "harness-"}},
 			},
 		},
 		{
